@@ -123,7 +123,14 @@ func (r *WordRenderer) Render(doc ast.Node) error {
 
 // renderHeading 渲染标题
 func (r *WordRenderer) renderHeading(node *ast.Heading) (ast.WalkStatus, error) {
-	text := r.extractTextContent(node)
+	// 先把标题的行内内容渲染为一组Run（保留强调、删除线、代码和换行），标题文本就是这些Run的文本
+	content := &document.Paragraph{}
+	r.renderInlines(node, content, inlineFormat{})
+	var buf strings.Builder
+	for i := range content.Runs {
+		buf.WriteString(content.Runs[i].Text.Content)
+	}
+	text := buf.String()
 	level := node.Level
 
 	// 限制标题级别
@@ -132,15 +139,50 @@ func (r *WordRenderer) renderHeading(node *ast.Heading) (ast.WalkStatus, error) 
 	}
 
 	// 使用现有的API，确保兼容性
+	var para *document.Paragraph
 	if r.opts.GenerateTOC && level <= r.opts.TOCMaxLevel {
 		// 复用现有的AddHeadingWithBookmark方法
-		r.doc.AddHeadingWithBookmark(text, level, "")
+		para = r.doc.AddHeadingWithBookmark(text, level, "")
 	} else {
 		// 复用现有的AddHeadingParagraph方法
-		r.doc.AddHeadingParagraph(text, level)
+		para = r.doc.AddHeadingParagraph(text, level)
+	}
+
+	// 用逐段的Run替换整体文本的Run（段落的最后一个Run），每个Run继承标题样式的字符格式
+	if para != nil && len(para.Runs) > 0 && len(content.Runs) > 0 {
+		last := len(para.Runs) - 1
+		base := para.Runs[last].Properties
+		para.Runs = para.Runs[:last]
+		for _, run := range content.Runs {
+			inheritRunProperties(run.Properties, base)
+			para.Runs = append(para.Runs, run)
+		}
 	}
 
 	return ast.WalkSkipChildren, nil
+}
+
+// inheritRunProperties 把base中的字符格式补充到props中尚未设置的项上
+func inheritRunProperties(props, base *document.RunProperties) {
+	if props == nil || base == nil {
+		return
+	}
+	if props.Bold == nil && base.Bold != nil {
+		props.Bold = &document.Bold{}
+	}
+	if props.Italic == nil && base.Italic != nil {
+		props.Italic = &document.Italic{}
+	}
+	if props.FontSize == nil && base.FontSize != nil {
+		props.FontSize = &document.FontSize{Val: base.FontSize.Val}
+	}
+	if props.Color == nil && base.Color != nil {
+		props.Color = &document.Color{Val: base.Color.Val}
+	}
+	if props.FontFamily == nil && base.FontFamily != nil {
+		family := *base.FontFamily
+		props.FontFamily = &family
+	}
 }
 
 // renderParagraph 渲染段落
@@ -190,6 +232,11 @@ func (r *WordRenderer) renderInlineContent(node ast.Node, para *document.Paragra
 // 这样 **粗体中的 _斜体_、`代码` 和换行** 都不会丢失
 func (r *WordRenderer) renderInlines(node ast.Node, para *document.Paragraph, f inlineFormat) {
 	for child := node.FirstChild(); child != nil; child = child.NextSibling() {
+		if child.Type() == ast.TypeBlock {
+			// 列表项、引用块中的块节点：其行内内容依次写入同一个段落
+			r.renderInlines(child, para, f)
+			continue
+		}
 		switch n := child.(type) {
 		case *ast.Text:
 			text := r.textValue(n)
@@ -306,25 +353,25 @@ func (r *WordRenderer) renderListItem(node *ast.ListItem) (ast.WalkStatus, error
 	}
 
 	// 普通列表项处理
-	text := r.extractTextContent(node)
-
 	// 简单的列表项处理，后续可以扩展为真正的列表格式
 	// 这里暂时使用缩进和符号来模拟列表
 	indent := strings.Repeat("  ", r.listLevel-1)
-	bulletText := "• " + text
+	para := r.doc.AddParagraph(indent + "• ")
 
-	r.doc.AddParagraph(indent + bulletText)
+	// 列表项的文本逐段写入，保留行内格式和换行
+	r.renderInlines(node, para, inlineFormat{})
 
 	return ast.WalkSkipChildren, nil
 }
 
 // renderBlockquote 渲染引用块
 func (r *WordRenderer) renderBlockquote(node *ast.Blockquote) (ast.WalkStatus, error) {
-	text := r.extractTextContent(node)
-
 	// 创建引用段落，使用Quote样式
-	para := r.doc.AddParagraph(text)
+	para := r.doc.AddParagraph("")
 	para.SetStyle("Quote")
+
+	// 引用的文本逐段写入，保留行内格式和换行
+	r.renderInlines(node, para, inlineFormat{})
 
 	return ast.WalkSkipChildren, nil
 }
